@@ -385,8 +385,9 @@ def generate(table, pred, tier="quick"):
             src=PRELUDE + f"fn probe() {{ let a = mk(); let b = mk(); let g = {first}.mutate(|mc, r| r.g); let v = {second}.mutate(|mc, r| {{ r.bag.borrow_mut(mc).push(g); *g }}); }}\nfn main() {{ probe(); }}\n")
 
     # ---- DynamicRoot fetched from the wrong set: compiles, must panic / Err at run time --------
-    tr = [t for t in pred["transmute"] if t["introduces"]]
-    guarded = {t["fn"]: (t["guarded"] or t["rawOnly"]) for t in tr}
+    # which public functions reach a re-branding site without the identity check (structural rule
+    # `Brand.blame`, lifted through private helpers): the model blames them by name
+    unchecked = {b for t in pred["transmute"] for b in t.get("blame", [])}
     dyn_main = """fn main() {{
     let a = mk(); let b = mk();
     let h = a.mutate(|mc, r| r.set.stash::<Rootable![i32]>(mc, Gc::new(mc, 0x5eed_i32)));
@@ -397,7 +398,7 @@ def generate(table, pred, tier="quick"):
 """
     for fn_, fetch, okv in (("fetch", "*r.set.fetch(&h)", "FETCHED 24301"),
                             ("try_fetch", "r.set.try_fetch(&h).map(|g| *g).ok()", "FETCHED Some(24301)")):
-        g = guarded.get(f"DynamicRootSet::{fn_}", False)
+        g = not any(b.split(" ")[0] == f"DynamicRootSet::{fn_}" for b in unchecked)
         tid = f"dynroot_{fn_}_right_set"
         add(id=tid, cls="dynroot", negative=False, predict="accept", why="fetch from the set the root was stashed in",
             run=dict(expect="ok", stdout=okv), src=PRELUDE + dyn_main.format(pre="", arena="a", fetch=fetch))
@@ -407,7 +408,7 @@ def generate(table, pred, tier="quick"):
             else:
                 run = dict(expect="ok", stdout="FETCHED None" if g else "FETCHED Some")
             add(id=f"dynroot_{fn_}_wrong_set_{variant}", cls="dynroot", negative=True, predict="accept",
-                why=f"transmutes_guarded: DynamicRootSet::{fn_} guarded by self.contains(root) = {g}",
+                why=f"transmutes_guarded: every re-branding site reachable from DynamicRootSet::{fn_} is identity-checked = {g} (unchecked: {sorted(unchecked)})",
                 twin_of=tid, run=run, must_refuse=True,
                 src=PRELUDE + dyn_main.format(pre=pre, arena="b", fetch=fetch))
 
